@@ -197,6 +197,28 @@ fn c12_find_relative() -> Result<(), String> {
     Ok(())
 }
 
+fn c18_union_right_prefix() -> Result<(), String> {
+    // left: branching node 0x00/1 without value; right: stores 0x00/1 under the representation (0x2a, 1)
+    let mut a: PrefixMap<P, u8> = PrefixMap::new();
+    a.insert((0x00, 2), 1);
+    a.insert((0x40, 2), 2);
+    let mut b: PrefixMap<P, u8> = PrefixMap::new();
+    b.insert((0x2a, 1), 9);
+    for item in a.view().union(&b) {
+        if let trieview::UnionItem::Right { prefix, right, .. } = item {
+            if *right == 9 && (prefix.0, prefix.1) != (0x2a, 1) {
+                return Err(format!("union reports the entry stored only in the right map as ({:#x}, {}) instead of its stored representation (0x2a, 1)", prefix.0, prefix.1));
+            }
+        }
+    }
+    for (prefix, l, r) in a.view_mut().union_mut(&mut b) {
+        if l.is_none() && r.is_some() && (prefix.0, prefix.1) != (0x2a, 1) {
+            return Err(format!("union_mut reports the entry stored only in the right map as ({:#x}, {}) instead of its stored representation (0x2a, 1)", prefix.0, prefix.1));
+        }
+    }
+    Ok(())
+}
+
 fn main() {
     let scen = std::env::args().nth(1).unwrap_or_default();
     let table: Vec<(&str, fn() -> Result<(), String>)> = vec![
@@ -210,6 +232,7 @@ fn main() {
         ("c20_entry_remove_get", c20_entry_remove_get),
         ("c08_lpm_seed", c08_lpm_seed),
         ("c12_find_relative", c12_find_relative),
+        ("c18_union_right_prefix", c18_union_right_prefix),
     ];
     let mut bad = 0;
     for (name, f) in &table {
